@@ -9,6 +9,7 @@ from ._abnf import ABNF, STATUS_NORMAL, continuous_frame, frame_buffer
 from ._exceptions import (
     WebSocketBadStatusException,
     WebSocketConnectionClosedException,
+    WebSocketException,
     WebSocketProtocolException,
 )
 from ._handshake import SUPPORTED_REDIRECT_STATUSES, handshake
@@ -268,7 +269,11 @@ class WebSocket:
             self.handshake_response = handshake(self.sock, url, *addrs, **options)
             for _ in range(options.pop("redirect_limit", 3)):
                 if self.handshake_response.status in SUPPORTED_REDIRECT_STATUSES:
-                    url = self.handshake_response.headers["location"]
+                    url = self.handshake_response.headers.get("location")
+                    if not url:
+                        raise WebSocketException(
+                            f"Handshake status {self.handshake_response.status}: redirect without a Location header"
+                        )
                     self.sock.close()
                     self.sock, addrs = connect(
                         url,
